@@ -37,6 +37,10 @@ class C18(core.Prop):
 
     def corpus(self):
         return [
+            {'t': 'install', 'name': 'foo', 'version': '1', 'package': 'acme', 'where': {'source': 'parts.input', 'pipeline': 'pipeline'},
+             'style': {'source': 'relative', 'pipeline': 'default'}, 'marker': 'Mc0', 'zip': False},
+            {'t': 'install', 'name': 'foo', 'version': '1', 'package': 'acme.core', 'where': {'source': 'source', 'pipeline': 'a.flow'},
+             'style': {'source': 'default', 'pipeline': 'absolute'}, 'marker': 'Mc1', 'zip': True},
             {'t': 'tag', 'trts': None, 'trord': None, 'okind': 'int', 'tuts': None, 'tuscore': None, 'states': []},
             {'t': 'tag', 'trts': None, 'trord': None, 'okind': 'int', 'tuts': 3, 'tuscore': 1, 'states': [0]},
             {'t': 'versions', 'a': '1.0.0', 'b': '1'},
@@ -88,6 +92,13 @@ class C18(core.Prop):
             mods = {k: f'pkg{rng.randint(0, 9)}.mod{rng.randint(0, 9)}' for k in rng.sample(['pipeline', 'source', 'evaluation', 'tuning'], rng.randint(0, 3))}
             out.append({'t': 'manifest', 'name': rng.choice(['foo', 'forml-tutorial', 'my_prj', 'a.b']), 'version': rng.choice(['1', '0.1.dev2', '2!1.0', '1.2rc1.post3']),
                         'package': rng.choice(['foo', 'foo.bar', 'x_y.z']), 'modules': mods})
+        for k in range(max(4, n // 25)):
+            # a package written to disk (directory / zip), installed, and its components loaded
+            pkg = rng.choice(['acme', 'acme.core', 'x_y'])
+            style = {c: rng.choice(['default', 'relative', 'relative', 'absolute']) for c in ('source', 'pipeline')}
+            where = {c: (c if style[c] == 'default' else rng.choice([f'{c}_mod', f'parts.{c}_in', f'a.b.{c}'])) for c in ('source', 'pipeline')}
+            out.append({'t': 'install', 'name': rng.choice(['foo', 'my-prj']), 'version': rng.choice(['1', '0.1.dev2']), 'package': f'{pkg}',
+                        'where': where, 'style': style, 'marker': f'M{k}x{rng.randint(0, 99)}', 'zip': rng.random() < 0.5})
         return out
 
     def run_impl(self, cases):
@@ -98,7 +109,7 @@ class C18(core.Prop):
     def coq_case(self, case, obs):
         t = case['t']
         if 'error' in obs:
-            return None if t == 'manifest' else '(C18.CGenKey 1%Z None None)'
+            return None if t in ('manifest', 'install') else '(C18.CGenKey 1%Z None None)'
         if t == 'tag':
             return (f"(C18.CTag {co(case['trts'], cz, 'Z')} {co(case['trord'], cz, 'Z')} {co(case['tuts'], cz, 'Z')} "
                     f"{co(case['tuscore'], cz, 'Z')} {cl([cz(s) for s in case['states']], 'Z')} {ctag(obs)})")
@@ -172,6 +183,10 @@ class C18(core.Prop):
         elif t == 'manifest':
             if not obs['equal'] or obs['modules'] != case['modules'] or obs['package'] != case['package']:
                 return f'manifest {case} read back as {obs}'
+        elif t == 'install':
+            m = case['marker']
+            if obs['source'] != f'T{m}[T{m}.x]' or obs['pipeline'] != f'op{m}' or not obs['manifest_equal']:
+                return f'installing the package {case} yields components {obs}'
         return None
 
     def nontrivial(self, case, obs):
@@ -182,6 +197,8 @@ class C18(core.Prop):
             return not obs.get('invalid') and obs.get('a', {}).get('release') == obs.get('b', {}).get('release') and case['a'] != case['b']
         if t in ('genlisting', 'rellisting'):
             return len(set(case['keys'])) < len(case['keys'])
+        if t == 'install':
+            return any('.' in w for w in case['where'].values()) or case['zip']
         return False
 
     def distribution(self, cases, observations):
